@@ -295,4 +295,57 @@ def r20_set_backend(ctx):
     # configuration are compared with the reference, whichever method performs the import)
 
 
-RULES = [('R20-open', r20_open), ('R20.4', r20_backend_name), ('R20.5', r20_names), ('R20.6', r20_set_backend)]
+def r20_repr(ctx):
+    """R20.1: looking at a Backend (repr / str / f-string, what a prompt does with `mido.backend`) does not import the module: it
+    is imported only when first NEEDED.  repr() of a lazily made backend: no import event, and the text names the module."""
+    cls = ctx.p.cls(BK, 'Backend')
+    o, rp = ctx.p.lookup_method(cls, '__repr__')
+    if rp is None:
+        return
+    ctx.fn(rp)
+    for bname, api in (('mod', None), ('mod/ALSA', None), ('mod', 'JACK')):
+        ai = make_interp(ctx, {}, True, True, [])
+
+        def thunk():
+            b = ai.apply(ClassRef(cls), [], {'name': bname, 'api': api}, None)
+            return ai.call_function(rp, [b], {})
+        outs = ai.explore(thunk)
+        ok = len(outs) == 1 and outs[0].kind == 'return' and ai.state['imports'] == []
+        ctx.require(ok, 'R20.1', f'repr(Backend({bname!r}, api={api!r}))', ctx.where(rp),
+                    f'formatting a backend that has not been used yet: {outs if len(outs) != 1 or outs[0].kind != "return" else ""} imports {ai.state["imports"]} '
+                    '(the module must only be imported when first needed)', construct=f'{rp.qname}::imports')
+
+
+def r20_default_module(ctx):
+    """R20.2 continued inside the default backend module (mido.backends.rtmidi): the API name that reaches it selects the RtMidi
+    API of every MidiIn/MidiOut and device query - a name RtMidi knows but that is not compiled in, or an unknown name, is an
+    error, never a silent fall-back to the default API.  _get_api_id is interpreted with the name tables and the compiled-API
+    list scripted."""
+    try:
+        fn = ctx.p.func('mido.backends.rtmidi', '_get_api_id')
+    except AnalysisError:
+        ctx.notes.append('mido.backends.rtmidi._get_api_id not found: R20.7 not applicable')
+        return
+    ctx.fn(fn)
+    w = ctx.where(fn)
+    RT = 'mido.backends.rtmidi'
+    names = {'UNSPECIFIED': 0, 'LINUX_ALSA': 2, 'UNIX_JACK': 3}
+    for api, want in ((None, 'unspecified'), ('LINUX_ALSA', 2), ('UNIX_JACK', 'ValueError'), ('NO_SUCH_API', 'ValueError')):
+        ai = pm.make_interp(ctx)
+        ai.global_overrides[(RT, '_name_to_api')] = dict(names)
+        ai.global_overrides[(RT, '_api_to_name')] = {v: k for k, v in names.items()}
+        ai.summaries['rtmidi.get_compiled_api'] = lambda i, a, k, n: [2]
+        outs = ai.explore(lambda: ai.call_function(fn, [api] if api is not None else [], {}))
+        if want == 'ValueError':
+            ok = bool(outs) and all(o_.kind == 'raise' and o_.exc == 'ValueError' for o_ in outs)
+        elif want == 'unspecified':
+            ok = len(outs) == 1 and outs[0].kind == 'return' and (outs[0].value == 0 or 'API_UNSPECIFIED' in repr(outs[0].value))
+        else:
+            ok = len(outs) == 1 and outs[0].kind == 'return' and outs[0].value == want
+        ctx.require(ok, 'R20.7', f'rtmidi._get_api_id({api!r})', w,
+                    f'with LINUX_ALSA compiled in and UNIX_JACK known but not compiled in, _get_api_id({api!r}) gives {outs}; expected '
+                    f'{"the unspecified API" if want == "unspecified" else want} (an API that was asked for must not be replaced by another one silently)',
+                    construct=f'{fn.qname}::api({api})')
+
+
+RULES = [('R20.1-repr', r20_repr), ('R20.7', r20_default_module), ('R20-open', r20_open), ('R20.4', r20_backend_name), ('R20.5', r20_names), ('R20.6', r20_set_backend)]
